@@ -410,14 +410,23 @@ func setField(msg protoreflect.Message, fdesc protoreflect.FieldDescriptor, valu
 		}
 		defer iter.Done()
 
-		list := msg.Mutable(fdesc).List()
-		list.Truncate(0)
+		// Convert all the elements before touching the field:
+		// the value may be (a view of) the field itself, as in
+		// msg.x = msg.x, and a failed conversion must leave the
+		// field as it was.
+		var elems []protoreflect.Value
 		var x starlark.Value
 		for i := 0; iter.Next(&x); i++ {
 			v, err := toProto(fdesc, x)
 			if err != nil {
 				return fmt.Errorf("index %d: %v", i, err)
 			}
+			elems = append(elems, v)
+		}
+
+		list := msg.Mutable(fdesc).List()
+		list.Truncate(0)
+		for _, v := range elems {
 			list.Append(v)
 		}
 		return nil
